@@ -131,7 +131,15 @@ LIT_COMPANY = ["name", "size", "mode", "path", "ext", "dir", "modified", "hardli
 CONFUSABLE = [["length('Size')", "length(size)"], ["concat('a, b')", "concat('a', 'b')"], ["length(upper('x'))", "length('Upper(x)')"],
               ["1 + 2", "'1 + 2'"], ["least(size, 1, 2)", "least(size, '1, 2')"], ["upper('Name')", "upper(name)"],
               ["concat_ws(name, 'a', 'b')", "concat_ws(name, 'a, b')"], ["length('Name') + size", "length(name) + size"],
-              ["(1 + 2) * 2", "'(1 + 2) * 2'"], ["concat('Size', ': ', size)", "concat(size, ': ', size)"]]
+              ["(1 + 2) * 2", "'(1 + 2) * 2'"], ["concat('Size', ': ', size)", "concat(size, ': ', size)"],
+              # a quote character inside a literal: the two calls have different arguments
+              ["concat(\"a', 'b\")", "concat('a', 'b')"], ["length(\"x') + length('abc\")", "length('x') + length('abc')"],
+              ["concat('a', \"b', 'c\")", "concat('a', 'b', 'c')"],
+              # a boolean value inside arithmetic, next to the bare boolean and to itself (it counts as 1 / 0 wherever it stands)
+              ["is_file", "is_file + 1"], ["kana(name)", "kana(name) + 1"], ["contains('e')", "contains('e') + 1"],
+              ["is_file + 1", "is_file - is_file"], ["kana(name) + 1", "kana(name) - kana(name)"], ["is_file * 5", "is_file"],
+              ["contains('e') * 2 + 1", "contains('e')"]]
+BOOLEAN_PAIRS = ("is_file", "kana(", "contains(")
 
 
 @st.composite
@@ -141,6 +149,9 @@ def literal_case_(draw):
         if draw(st.booleans()):
             pair.reverse()
         tree = {nm: {"t": "f", "size": sz} for nm, sz in zip(draw(st.lists(st.sampled_from(_fnames), min_size=2, max_size=3, unique=True)), [4, 12, 7])}
+        if any(b in c for c in pair for b in BOOLEAN_PAIRS):
+            tree["かな"] = {"t": "f", "c": "three\n"}
+            tree["sub"] = {"t": "d", "ch": {}}
         return {"kind": "literals", "tree": tree, "pair": pair, "company": draw(st.lists(st.sampled_from(["size", "mode", "path"]), max_size=2, unique=True))}
     lits = draw(st.lists(st.sampled_from(LITERALS), min_size=1, max_size=3, unique=True))
     comp = draw(st.lists(st.sampled_from(LIT_COMPANY), min_size=1, max_size=4, unique=True))
@@ -172,8 +183,32 @@ def check_literals(case):
                     if nm in alone[i] and alone[i][nm][0] != cells[i]:
                         out.add("C15/independence/confusable-texts", query=q, expr=c, name=nm, alone=alone[i][nm][0], in_company=cells[i])
                         return out
+            # a WHERE condition on the expression is true exactly for the entries whose displayed value satisfies it
+            for i, c in enumerate(case["pair"]):
+                if not any(b in c for b in BOOLEAN_PAIRS) or not any(ch in c for ch in "+-*"):
+                    continue
+                values = sorted({cells[0] for cells in alone[i].values()})
+                for v in values:
+                    try:
+                        float(v)
+                    except ValueError:
+                        continue
+                    qw = "select name from . depth 1 where %s = %s into list" % (c, v)
+                    res = runner.run([qw], cwd=base)
+                    out.evals += 1
+                    if res.wall_timeout:
+                        out.inconclusive = True
+                        return out
+                    if res.status != 0 or res.err:
+                        out.add("C15/where/boolean-arithmetic/run-failed", query=qw, status=res.status, stderr=res.err[:200])
+                        return out
+                    got = {r[0] for r in runner.rows(res.out, 1)}
+                    want = {nm for nm, cells in alone[i].items() if cells[0] == v}
+                    if got != want:
+                        out.add("C15/where/boolean-arithmetic", query=qw, shown=v, extra=sorted(got - want)[:5], missing=sorted(want - got)[:5])
+                        return out
             out.nontrivial = True
-            out.classes = ["confusable-expression-texts"]
+            out.classes = ["confusable-expression-texts"] + (["boolean-in-arithmetic"] if any(b in c for c in case["pair"] for b in BOOLEAN_PAIRS) else [])
             out.sample = {"query": q}
             return out
         w = case["wrap"]
